@@ -14,7 +14,7 @@ arbitrary content, L in 0/5/70(/300), delivered whole or in fragments (bytewise,
 cut off after 0/1/10/23/24/n-1 bytes, with matching or foreign magic and right or wrong checksum. Per scenario: returns
 (magic, command without NUL padding, payload); requests and consumes exactly the 24+L bytes of this message; an early close is
 an error, not a message and not an endless loop; foreign magic / wrong checksum refused (also for an empty payload); a verdict
-that depends on how the stream is fragmented leaves the scenario undecided, which is reported. [LAYOUT/TILE] msg_ser = magic(4) || command NUL-padded to 12 ||
+that depends on how the stream is fragmented leaves the scenario undecided, which is reported. Payloads just above every size constant the receive path mentions, and of exactly the size limit (MAX_SIZE, which msg_ser accepts) and one byte less, are returned as well. [LAYOUT/TILE] msg_ser = magic(4) || command NUL-padded to 12 ||
 len(4 LE) || SHA256d(payload)[:4] || payload, refused for unknown commands / oversized payloads; the reader's slices agree.
 [LAYOUT/TILE/TABLE/TYPE] codecs: version (field offsets, widths, endianness; relay byte compared with integers; user agent
 through its CompactSize length), ping, getheaders (count per CompactSize class 0..252 / fd / fe / ff with offsets 5, 7, 9, 13;
